@@ -646,7 +646,7 @@ def tonum(v):
     if isinstance(v, IntV):
         d = zero_deg()
         d['nfft'] = nfft_degree(v.a) if v.a is not None else F(0)
-        n = Num(d, (), False, taint=v.taint, nonneg=False)
+        n = Num(d, (), False, taint=v.taint, nonneg=bool(v.a is not None and v.a.nonneg()))
         n.ex = v.a
         n.sx = v.sx
         n.q = Aff(0)
